@@ -46,6 +46,7 @@ func lexKnown(t token.TokenType) bool {
 type lexPos struct {
 	line, col int
 	r         rune
+	off       int // byte offset
 }
 
 func lexPositions(in []byte) []lexPos {
@@ -53,7 +54,7 @@ func lexPositions(in []byte) []lexPos {
 	line, col := 1, 1
 	for i := 0; i < len(in); {
 		r, size := utf8.DecodeRune(in[i:])
-		ps = append(ps, lexPos{line, col, r})
+		ps = append(ps, lexPos{line, col, r, i})
 		if r == '\n' {
 			line++
 			col = 1
@@ -62,7 +63,7 @@ func lexPositions(in []byte) []lexPos {
 		}
 		i += size
 	}
-	ps = append(ps, lexPos{line, col, 0})
+	ps = append(ps, lexPos{line, col, 0, len(in)})
 	return ps
 }
 
@@ -88,6 +89,33 @@ func lexFirstRune(t token.Token) (rune, bool) {
 	return r, true
 }
 
+// lexCommentAt is the text of the comment that starts at byte offset off: a
+// line comment runs to the end of the line, a block comment to the first */
+// after its opening /* (to the end of input when it is not closed).
+func lexCommentAt(in []byte, off int) string {
+	end := len(in)
+	for j := off; j < len(in); j++ {
+		if in[j] == 0 {
+			end = j // a NUL byte ends the input for this lexer
+			break
+		}
+	}
+	if off+1 < end && in[off] == '/' && in[off+1] == '*' {
+		for j := off + 2; j+1 < end; j++ {
+			if in[j] == '*' && in[j+1] == '/' {
+				return string(in[off : j+2])
+			}
+		}
+		return string(in[off:end])
+	}
+	for j := off; j < end; j++ {
+		if in[j] == '\n' {
+			return string(in[off:j])
+		}
+	}
+	return string(in[off:end])
+}
+
 func lexCheck(in []byte) {
 	n := len(in)
 	ps := lexPositions(in)
@@ -106,6 +134,18 @@ func lexCheck(in []byte) {
 				found = true
 				if want, ok := lexFirstRune(t); ok {
 					nondet.Assert(p.r == want, "LC2: the token's position does not designate the start of its text")
+				}
+				if t.Type == token.COMMENT {
+					want := lexCommentAt(in, p.off)
+					ascii := true
+					for j := 0; j < len(want); j++ {
+						if want[j] >= 0x80 {
+							ascii = false // the lexer reads runes: bytes outside ASCII may be re-encoded in the literal
+						}
+					}
+					if ascii {
+						nondet.Assert(t.Literal == want, "LC8: a comment token does not extend exactly to the end of its comment (end of line, or the first */)")
+					}
 				}
 			}
 		}
@@ -144,7 +184,7 @@ var LexTemplates = []string{
 	"case", "default", "break", "fallthrough", "pragma", "true", "false",
 	"==", "!=", "~", "!~", ">", "<", ">=", "<=", "&&", "||", "=", "+=", "-=", "*=", "/=", "%=", "|=", "&=", "^=", "<<=", ">>=", "rol=", "ror=", "&&=", "||=",
 	"{", "}", "(", ")", "[", "]", ",", "/", ";", ".", "!", ":", "+", "-", "%", "\n",
-	"C!", "W!", "{\"x\"}", "{ab\"x\"ab}", "\"x\"", "\"a", "0x1.8p3", "0x1F", "10ms", "1.5s", "1e3", "12", "1.", "/* a */", "/* a", "# a", "// a", "req.http.X-A:b", "a*",
+	"C!", "W!", "{\"x\"}", "{ab\"x\"ab}", "\"x\"", "\"a", "0x1.8p3", "0x1F", "10ms", "1.5s", "1e3", "12", "1.", "/* a */", "/* a", "# a", "// a", "/**/", "/***/", "/* a **/", "req.http.X-A:b", "a*",
 }
 
 // VerifLexTemplate: the contract holds for lexeme T with two arbitrary bytes
